@@ -497,7 +497,7 @@ def run(ctx):
     ctx.note("rule", "streaming cases only; primitive sequences: grammar-generated token streams (valid, truncated) and "
              "garbage streams x {every two-way split, every fixed chunk size 1..n (short streams), sampled splits/sizes "
              "(long), seeded random chunk sequences with zero-length reads} x buffer sizes {1,2,3,4,5,7,8,16,64 via "
-             "NewDecoder(buf).ResetReader, 256,257,4096 via NewDecoderFromReader}; full decodes: encoder output for 30 "
+             "the verif constructor io.VerifNewDecoderFromReader, 256,257,4096 via NewDecoderFromReader}; full decodes: encoder output for 30 "
              "Go values in simple and reference mode + hand-written streams, every truncation (short) or sampled "
              "(long), same chunk patterns; non-trivial = the reader delivered the data in at least two reads; distinct "
              "by (stream, read lengths, buffer size, constructor, commands/type)")
